@@ -102,7 +102,7 @@ def generate(seed, tier="quick", faults=True, light=False, **kw):
         if r.random() < 0.5:
             # ... or a well-formed map of this tree's own addresses, left by a run under another salt (perhaps interrupted)
             xdisk["files"][dump] = GC.stale_map(files, r.getrandbits(30), r.choice([0, 0, 1, 3, 7])) or xdisk["files"][dump]
-    if dump and r.random() < 0.06:
+    if dump and r.random() < 0.15:
         # left-overs with temporary-file names next to the map (an interrupted run of a tool that writes via a temporary name)
         if r.random() < 0.5:
             xdisk["dirs"].append(dump + ".tmp")
